@@ -33,7 +33,7 @@ let () =
                 | None -> "MODEL-ERROR:unknown-fn:" ^ fn
                 | Some j ->
                   if print_mode then "(judge)" else
-                  (try (match j args impl_obs with "OK" -> impl_obs | why -> "NOT-ADMISSIBLE:" ^ why) with
+                  (try (match j args (strip_spec impl_obs) with "OK" -> impl_obs | why -> "NOT-ADMISSIBLE:" ^ why) with
                    | Failure m -> "MODEL-ERROR:" ^ m
                    | Stack_overflow -> "MODEL-ERROR:stack-overflow"
                    | Not_found -> "MODEL-ERROR:not-found"))
